@@ -29,23 +29,34 @@ DRIVER = 'drv_c10'
 CLAIM = {
     'technique': 'Lean 4: induction over operation histories of an Option-cache state machine (generic in the '
                  'matrix operations) + Mathlib matrix algebra over C for the solver formulas with kernel results as '
-                 'contract parameters; seeded differential correspondence of histories and formulas at binary64',
+                 'contract parameters (Ky Fan minimum principle proved from a certificate contract); seeded '
+                 'differential correspondence of histories and formulas at binary64; first-principles oracles',
     'text': 'For every number of users, every interpretation of the matrix operations and every history of '
             'solve / randomizeF / set_precoders / set_receive_filters / P= / clear / getter reads, no derived attribute '
             'of the repaired IASolverBaseClass is stale: full_W_H and full_W are what would be computed now from the '
-            'current W_H and full_F, W and W_H are conjugate transposes, a stored full_F that was not given from outside '
-            'is F*sqrt(P) for the current F and P, Ns is the column count of F.  Over C: unit Frobenius norm implies '
-            'power exactly P after scaling; full_W_H H_kk full_F = I for every solve-kernel result; the closed-form '
-            'chain aligns the interference and the left-null-space filters null all six cross links; direct and reverse '
-            'leakage coincide for equal powers and one min-leakage / alternating-minimisation iteration cannot increase '
-            'the cost when the eigenvector kernels return the extreme eigenvectors (certificate contract, Ky Fan proved); '
-            'the MMSE precoder never exceeds the power budget for every multiplier satisfying the Newton contract.',
-    'note': 'trusted: numpy/scipy kernels (eig, solve, pinv, inv, newton) as contract parameters checked numerically per '
-            'case; binary64 rounding (1e-9); the harness.  Model of solve = its effect on the eight attributes (the '
-            'algorithms\' numeric content is covered by the formula correspondence and the oracles).  Out of the model: '
-            'arrays whose length is not K, Python lists instead of object arrays, the diagonal-loading and mu>1e20 retry '
-            'branches of MMSE (pragma: no cover), _solve_finalize stream reduction, MaxSINR formulas (only the generic '
-            'clauses), GreedStream/BruteForce wrappers.',
+            'current W_H and full_F (so any relation every solve result satisfies holds between the values the getters '
+            'return), W and W_H are conjugate transposes, a stored full_F that was not given from outside is F*sqrt(P) '
+            'for the current F and P, Ns is the column count of F.  Over C, for all dimensions: X/||X|| has unit norm; '
+            'a unit-norm precoder scaled by sqrt(P) carries exactly P; full_W_H H_kk full_F = I for every solve-kernel '
+            'result with invertible equivalent channel; the closed-form chain aligns the interference at the three '
+            'receivers and null-space filters null all six cross links; get_cost of min-leakage is the leaked power; '
+            'direct and reverse leakage coincide for equal powers; one min-leakage / alternating-minimisation iteration '
+            'cannot increase get_cost when the current iterate is a scaled orthonormal family and leig/peig return '
+            'extreme eigenpairs (certificate: eigen-equation, orthonormality, PSD remainder); the MMSE precoder never '
+            'exceeds the power for every multiplier satisfying the Newton contract; the repaired svd initialisation '
+            'keeps exactly Ns singular vectors.  Negative witnesses for the design-round code (stale full_F / full_W_H, '
+            'half-built cache, sqrt(Ns)-norm min-leakage iterates failing the assertion, wrong svd column count).',
+    'note': 'trusted: numpy/scipy kernels (eig, solve, pinv, inv, svd, newton) as contract parameters checked '
+            'numerically per case; binary64 rounding (1e-9, scaled by the condition number of the equivalent channel for '
+            'the filters); the harness.  Model of solve = its effect on the eight attributes (the algorithms\' numeric '
+            'content is covered by the formula correspondence, the contracts and the oracles).  Monotonicity is proved '
+            'for iterations that start from a feasible pair; it is not claimed for the very first step from a random / '
+            'closed-form / alt-min start with Ns >= 2 (that start is not a competitor of the eigenvector updates).  Out of the model: arrays whose length is not K, Python lists instead of '
+            'object arrays, the diagonal-loading and mu>1e20 retry branches of MMSE (pragma: no cover), '
+            '_solve_finalize stream reduction, the MaxSINR update formulas (only the generic clauses), '
+            'GreedStream/BruteForce wrappers.  Guard: a solve() rejected for its power has already overwritten _Ns '
+            '(theorem rejected_solve_overwrites_ns).  max-SINR / MMSE are exercised with a positive noise variance '
+            '(their covariances are singular without noise when there are few interferers).',
 }
 
 SOLVERS = ['closed', 'altmin', 'minleak', 'maxsinr', 'mmse']
@@ -478,9 +489,14 @@ READS = ['rF', 'rFF', 'rW', 'rWH', 'rFWH', 'rFW', 'rNs', 'rP']
 def gen_history(rng, tier, solver=None, length=None):
     K = rng.choice([2, 3, 3, 3, 4])
     solver = solver or rng.choice(['base', 'base', 'minleak', 'altmin', 'maxsinr', 'mmse', 'closed'])
+    cf_system = solver not in ('base', 'closed') and rng.chance(0.15)
     if solver == 'closed':
         K = 3 if rng.chance(0.9) else rng.choice([2, 4])
         n = rng.choice([2, 4])
+        Nr, Nt = [n] * K, [n] * K
+    elif cf_system:
+        K = 3
+        n = rng.choice([2, 4, 4])
         Nr, Nt = [n] * K, [n] * K
     else:
         Nr, Nt = gen_dims(rng, K)
@@ -489,7 +505,7 @@ def gen_history(rng, tier, solver=None, length=None):
             'noise': (rng.choice([None, 0.01, 0.1, 0.01, 0.1, 1.0]) if solver in ('mmse', 'maxsinr') else None),
             'ops': []}
     cur = gen_ns(rng, K, Nr, Nt, None)
-    if solver == 'closed':
+    if solver == 'closed' or cf_system:
         cur = [Nr[0] // 2] * K
     n = length or (rng.randint(4, 14) if tier == 'quick' else rng.randint(4, 30))
     ops = case['ops']
@@ -529,6 +545,8 @@ def gen_history(rng, tier, solver=None, length=None):
         elif r < 0.97 and solver != 'base':
             if solver == 'closed':
                 ns = [Nr[0] // 2] * K
+            elif cf_system and rng.chance(0.7):
+                ns = [Nr[0] // 2] * K
             else:
                 ns = gen_ns(rng, K, Nr, Nt, cur)
                 if solver == 'minleak' and rng.chance(0.5):
@@ -537,7 +555,7 @@ def gen_history(rng, tier, solver=None, length=None):
             nsarg = ns[0] if (len(set(ns)) == 1 and rng.chance(0.5)) else ns
             init = None
             if solver != 'closed':
-                init = rng.choice(['random', 'random', 'svd' if Nr == Nt else 'random',
+                init = rng.choice(['random', 'random', 'svd',
                                    'closed_form' if (K == 3 and Nr == Nt and len(set(Nr)) == 1 and Nr[0] % 2 == 0
                                                      and ns == [Nr[0] // 2] * 3) else 'random',
                                    'alt_min' if solver != 'altmin' else 'random'])
@@ -671,6 +689,14 @@ def check_relations(s, ch, K, exact_power, kind, want_filters=True):
         E = fWH[k] @ Hkl(ch, k, k) @ fF[k] - np.eye(F[k].shape[1])
         if float(np.abs(E).max()) > 1e-10 * conds[k] + 1e-9:
             return 'identity', 'user %d: |full_W_H H_kk full_F - I| = %.3e (cond %.2e)' % (k, float(np.abs(E).max()), conds[k])
+        # the full filter is the IA filter followed by a post-processing matrix: its rows lie in the row space
+        # of the CURRENT W_H
+        cw = float(np.linalg.cond(WH[k]))
+        if cw < 1e6:
+            R = fWH[k] - fWH[k] @ np.linalg.pinv(WH[k]) @ WH[k]
+            if float(np.abs(R).max()) > (1e-10 * cw * conds[k] + 1e-9) * max(1.0, float(np.abs(fWH[k]).max())):
+                return 'filter-rowspace', 'user %d: full_W_H is not (post-processing matrix) x W_H: residual %.3e' % (
+                    k, float(np.abs(R).max()))
         if not mat_close(fW[k], Hm(fWH[k]), 1e-12):
             return 'full_W-vs-full_W_H', 'user %d' % k
     return None
@@ -897,6 +923,21 @@ def o_solve(case):
 ORACLES = {'history': o_history, 'solve': o_solve, 'monotone': o_monotone}
 
 
+def corpus_cases():
+    """minimised past failures (corpus/c10/*.json): always run first, whatever the seed"""
+    import json
+    import os
+    d = os.path.join(core.VERIF, 'corpus', 'c10')
+    out = []
+    if os.path.isdir(d):
+        for fn in sorted(os.listdir(d)):
+            if fn.endswith('.json'):
+                with open(os.path.join(d, fn)) as f:
+                    c = json.load(f)
+                out.append((c['call'], c['case']))
+    return out
+
+
 def run_oracle(ctx, call, case, key=None):
     ctx.count((call, key if key is not None else repr(case)))
     try:
@@ -924,6 +965,11 @@ def gen_solve_case(rng, kind=None):
         n = rng.choice([2, 4, 4, 6])
         K, Nr, Nt, ns = 3, [n] * 3, [n] * 3, [n // 2] * 3
         init = None
+    elif rng.chance(0.2):
+        # stratum: the 3-user square system on which the closed form exists, every init mode
+        n = rng.choice([2, 4, 4, 6])
+        K, Nr, Nt, ns = 3, [n] * 3, [n] * 3, [n // 2] * 3
+        init = rng.choice(['closed_form', 'closed_form', 'svd', 'random'] + (['alt_min'] if kind != 'altmin' else []))
     else:
         K = rng.choice([2, 3, 3, 4])
         Nr, Nt = gen_dims(rng, K)
@@ -932,9 +978,7 @@ def gen_solve_case(rng, kind=None):
             ns = [rng.randint(1, min(lim))] * K
         else:
             ns = [rng.randint(1, x) for x in lim]
-        opts = ['random', 'random']
-        if Nr == Nt:
-            opts.append('svd')
+        opts = ['random', 'random', 'svd']
         if K == 3 and len(set(Nr + Nt)) == 1 and Nr[0] % 2 == 0 and ns == [Nr[0] // 2] * 3:
             opts += ['closed_form', 'closed_form']
         if kind != 'altmin':
@@ -957,11 +1001,13 @@ def gen_monotone_case(rng, kind=None):
         ns = [rng.randint(1, min(lim))] * K
     else:
         ns = [rng.randint(1, x) for x in lim]
-    opts = ['random', 'random']
-    if Nr == Nt:
-        opts.append('svd')
+    opts = ['random', 'random', 'svd']
     if kind != 'altmin':
         opts.append('alt_min')
+    if rng.chance(0.15):
+        n = rng.choice([2, 4, 4, 6])
+        K, Nr, Nt, ns = 3, [n] * 3, [n] * 3, [n // 2] * 3
+        opts = ['closed_form']
     return {'solver': kind, 'K': K, 'Nr': Nr, 'Nt': Nt, 'Ns': ns, 'P': rng.choice([0.5, 1.0, 4.0, 30.0]),
             'init': rng.choice(opts), 'iters': rng.choice([3, 6, 15]), 'seed': rng.below(2 ** 31),
             'chan_seed': rng.below(2 ** 31)}
@@ -979,6 +1025,7 @@ class Tap:
         from scipy import optimize
         self.alg, self.base, self.opt = alg, base, optimize
         self.saved = [(alg, 'leig', alg.leig), (alg, 'peig', alg.peig), (base, 'leig', base.leig),
+                      (alg, 'least_right_singular_vectors', alg.least_right_singular_vectors),
                       (np.linalg, 'solve', np.linalg.solve), (np.linalg, 'pinv', np.linalg.pinv),
                       (np.linalg, 'inv', np.linalg.inv), (np.linalg, 'eig', np.linalg.eig),
                       (optimize, 'newton', optimize.newton)]
@@ -1009,7 +1056,25 @@ def form_line(K, Nr, Nt, ns, H, F, W, C, P, noise, idx):
         enc_arr(W), enc_arr(C), ','.join(core.f2s(p) for p in P), '-' if noise is None else core.f2s(noise), idx)
 
 
+def guarded(ctx, name, fn, *a):
+    """an exception raised by the code under comparison is a broken correspondence, not a harness failure"""
+    try:
+        fn(*a)
+    except core.Infra:
+        raise
+    except Exception as e:
+        ctx.branch('disagree:' + name)
+        if sum(1 for b in ctx.broken if b['name'] == name) < 5:
+            ctx.tie_broken('correspondence', name, 'the implementation raised %s: %s' % (type(e).__name__, str(e)[:300]))
+
+
 def correspond_formulas(ctx, n):
+    guarded(ctx, 'formula.systems', correspond_formulas_systems, ctx, n)
+    guarded(ctx, 'formula.closed', correspond_formulas_closed, ctx, n)
+    guarded(ctx, 'formula.store', correspond_formulas_store, ctx, n)
+
+
+def correspond_formulas_systems(ctx, n):
     """the model formulas (Model/C10.lean at binary64) against what the code computes"""
     _, alg, base, misc = _mods()
     drv = core.Driver(DRIVER)
@@ -1083,10 +1148,17 @@ def correspond_formulas(ctx, n):
         mm.set_receive_filters(W=objarr(W))
         mm._mu = np.zeros(K)
         with Tap() as tap:
-            Uk = mm._calc_Uk(idx)
+            try:
+                mm._calc_Uk(idx)
+                singular = False
+            except np.linalg.LinAlgError:
+                singular = True      # no noise and fewer streams than receive antennas: outside the solver's domain
         sv = tap.calls('solve')
-        ok = len(sv) == 1 and mat_close(sv[0][1][0], dec_dm(rep[8])) and mat_close(sv[0][1][1], dec_dm(rep[9]))
-        ctx.corr('formula.mmse._calc_Uk.solve-arguments', case, 'match' if ok else 'differs', 'match', key=('mmU', it))
+        if singular:
+            ctx.branch('mmse:_calc_Uk-singular-without-noise')
+        else:
+            ok = len(sv) == 1 and mat_close(sv[0][1][0], dec_dm(rep[8])) and mat_close(sv[0][1][1], dec_dm(rep[9]))
+            ctx.corr('formula.mmse._calc_Uk.solve-arguments', case, 'match' if ok else 'differs', 'match', key=('mmU', it))
         with Tap() as tap:
             try:
                 Vi = mm._calc_Vi(idx)
@@ -1111,7 +1183,28 @@ def correspond_formulas(ctx, n):
                     ctx.tie_broken('tie', 'contract:newton', '||V||^2=%r > P=%r (mu=%r)' % (pw, P[idx], mu), case)
             else:
                 ctx.branch('mmse:out-of-model')
+        # --- svd initialisation: how many singular vectors are split off / kept
+        sv_solver = make_solver('minleak', ch)
+        sv_solver._Ns = np.array(ns, dtype=int)
+        with Tap() as tap:
+            try:
+                sv_solver._initialize_F_with_svd_and_find_W(np.array(ns, dtype=int), np.array(P))
+                raised = None
+            except Exception as e:
+                raised = type(e).__name__
+        lr = tap.calls('least_right_singular_vectors')
+        mrep = drv.ask(['svdkept %d %d %d' % (Nr[k], Nt[k], ns[k]) for k in range(K)])
+        impl = [(int(lr[k][1][1]), int(sv_solver._F[k].shape[1])) if (raised is None and len(lr) == K) else raised
+                for k in range(K)]
+        model = [tuple(int(x) for x in r.split('/')) for r in mrep]
+        ctx.corr('formula.svd-init.kept-columns', case, repr(impl), repr(model), key=('svd', it))
         ctx.branch('formula:system')
+
+
+def correspond_formulas_closed(ctx, n):
+    _, alg, base, misc = _mods()
+    drv = core.Driver(DRIVER)
+    rng = ctx.rng
     # ---- closed form chain
     for it in range(max(3, n // 3)):
         nn = rng.choice([2, 4, 4, 6])
@@ -1160,6 +1253,12 @@ def correspond_formulas(ctx, n):
                 ctx.tie_broken('tie', 'contract:leig-null', 'A A^H V residual %.3e' % r, case)
         ctx.corr('formula.closed._updateW.leig-argument', case, 'match' if ok else 'differs', 'match', key=('cfw', it))
         ctx.branch('formula:closed')
+
+
+def correspond_formulas_store(ctx, n):
+    _, alg, base, misc = _mods()
+    drv = core.Driver(DRIVER)
+    rng = ctx.rng
     # ---- what the min-leakage solver stores for a leig result, and the assertion of calc_Q_rev
     for it in range(max(3, n // 3)):
         K = 3
@@ -1216,9 +1315,9 @@ def check(ctx):
                              'formula:system', 'formula:closed', 'formula:store', 'oracle-ok:solve',
                              'oracle-ok:monotone', 'oracle-ok:history']
     nh = 300 if quick else 5000
-    nf = 12 if quick else 150
-    nsolve = 40 if quick else 500
-    nmono = 24 if quick else 300
+    nf = 15 if quick else 300
+    nsolve = 100 if quick else 2000
+    nmono = 50 if quick else 1000
     cases = list(CORPUS_HISTORIES) + [gen_history(ctx.rng, ctx.tier) for _ in range(nh)]
     try:
         correspond_histories(ctx, cases)
@@ -1229,6 +1328,9 @@ def check(ctx):
         ctx.notes.append('correspondence skipped: %s' % e)
         ctx.required_branches = [b for b in ctx.required_branches if b.startswith('oracle')]
     # property oracles on the implementation
+    for call, case in corpus_cases():
+        run_oracle(ctx, call, case)
+        ctx.branch('corpus')
     for case in CORPUS_HISTORIES:
         run_oracle(ctx, 'history', case)
     for case in cases[len(CORPUS_HISTORIES):len(CORPUS_HISTORIES) + (nh if quick else nh // 4)]:
